@@ -27,7 +27,7 @@ import types
 REAL = {}
 CUR = threading.local()
 STATE = types.SimpleNamespace(root=None, installed=False, shims=[], files=[], flocks={}, mainctr=itertools.count(),
-                              dirty=set(), outside=None)
+                              dirty=set(), outside=None, slists=[])
 
 TMP_PREFIXES = ("objects/tmp", "metadata/tmp", "refs/tmp")
 
@@ -46,6 +46,7 @@ def reset_execution():
     STATE.files = []
     STATE.flocks = {}
     STATE.dirty = set()
+    STATE.slists = []
 
 
 def relp(p):
@@ -228,6 +229,10 @@ class HFileIO(io.FileIO):
 
     def write(self, b):
         c = self._hs_point("write", "write")
+        if c:
+            allowed = c[0].adjust_write(c[1], len(b))
+            if allowed < len(b):
+                b = bytes(b)[:allowed]  # a short write(2): legal, the caller must write the rest
         n = super().write(b)
         if c:
             c[0].obs(c[1], n)
@@ -520,9 +525,43 @@ class SCondMP(SCond):
     fifo = False
 
 
+class SList(list):
+    """Shared 'locked identifiers' list.  With multiprocessing every operation on the managed list is an IPC round
+    trip, with threading a thread switch can fall between two bytecodes: an access made while the calling thread
+    holds NO lock is therefore a scheduling point of its own (correctly synchronised code never gets one)."""
+
+    def _hs_access(self, what):
+        w = cur()
+        if w is None or w.abort:
+            return
+        if any(isinstance(sh, SLock) and sh.owner == w.name for sh in STATE.shims):
+            return
+        try:
+            idx = STATE.slists.index(id(self))
+        except ValueError:
+            STATE.slists.append(id(self))
+            idx = len(STATE.slists) - 1
+        w.point(("lock", "unsynchronised-list-" + what, "S%d" % idx))
+
+    def __contains__(self, x):
+        self._hs_access("read")
+        return list.__contains__(self, x)
+
+    def append(self, x):
+        self._hs_access("write")
+        return list.append(self, x)
+
+    def remove(self, x):
+        self._hs_access("write")
+        return list.remove(self, x)
+
+    def __reduce__(self):
+        return (list, (list(self),))
+
+
 class _Manager:
     def list(self, *a):
-        return list(*a)
+        return SList(*a)
 
     def dict(self, *a, **k):
         return dict(*a, **k)
@@ -666,3 +705,7 @@ class BaseWorker:
 
     def obs(self, *x):
         pass
+
+    def adjust_write(self, op, nbytes):
+        """Number of bytes the next raw write(2) may transfer (environment answer: short write)."""
+        return nbytes
